@@ -21,6 +21,7 @@ import (
 var (
 	v2VarParams = []*v2.Param{{Name: "args", Variable: true}}
 	v2IDParams  = []*v2.Param{{Name: "x"}}
+	v2AnyRet    = []*v2.Param{{Desc: "value"}}
 )
 
 func v2check(params []*v2.Param) v2.FnCall {
@@ -37,7 +38,7 @@ func goToDT(v any) (any, ast.DType) {
 func V2Fns() map[string]*v2.Fn {
 	return map[string]*v2.Fn{
 		"p": {
-			Desc:      v2.FnDesc{Name: "p", Params: v2VarParams},
+			Desc:      v2.FnDesc{Name: "p", Params: v2VarParams, Returns: v2AnyRet},
 			CallCheck: v2check(v2VarParams),
 			Call: func(ctx *v2.Task, e *ast.CallExpr) *errchain.PlError {
 				v, err := v2.GetParam(ctx, e, v2VarParams, 0)
@@ -75,7 +76,7 @@ func V2Fns() map[string]*v2.Fn {
 			},
 		},
 		"one": {
-			Desc:      v2.FnDesc{Name: "one"},
+			Desc:      v2.FnDesc{Name: "one", Returns: v2AnyRet},
 			CallCheck: v2check(nil),
 			Call: func(ctx *v2.Task, e *ast.CallExpr) *errchain.PlError {
 				ctx.Regs.ReturnAppend(v2.V{V: int64(1), T: ast.Int})
@@ -83,7 +84,7 @@ func V2Fns() map[string]*v2.Fn {
 			},
 		},
 		"two": {
-			Desc:      v2.FnDesc{Name: "two"},
+			Desc:      v2.FnDesc{Name: "two", Returns: []*v2.Param{{Desc: "first"}, {Desc: "second"}}},
 			CallCheck: v2check(nil),
 			Call: func(ctx *v2.Task, e *ast.CallExpr) *errchain.PlError {
 				ctx.Regs.ReturnAppend(v2.V{V: int64(1), T: ast.Int}, v2.V{V: int64(2), T: ast.Int})
@@ -91,7 +92,7 @@ func V2Fns() map[string]*v2.Fn {
 			},
 		},
 		"id": {
-			Desc:      v2.FnDesc{Name: "id", Params: v2IDParams},
+			Desc:      v2.FnDesc{Name: "id", Params: v2IDParams, Returns: v2AnyRet},
 			CallCheck: v2check(v2IDParams),
 			Call: func(ctx *v2.Task, e *ast.CallExpr) *errchain.PlError {
 				v, err := v2.GetParam(ctx, e, v2IDParams, 0)
